@@ -4,16 +4,15 @@ import json, os, subprocess
 ROOT = os.path.dirname(os.path.dirname(os.path.abspath(__file__)))
 ALL = ['C%02d' % i for i in range(1, 21)]
 
-CHECKS = {
- 'C11': dict(engine='explore+tlc-trace', ref='DESIGN.md 6 C11',
-   technique='TLC model checking of ScpiStatus.tla + TLC validation of every transition of the implementation state graph and of random walks',
-   text='TLC exhaustively checks StbCoherent and the action properties on bounded alphabets of ScpiStatus.tla; the real library is explored breadth-first over the same alphabets (snapshot/restore, incl. ring indices) and every transition, plus seeded 16-bit random walks, is validated by TLC as the step the specification prescribes. Exhaustive within the alphabets, sampled beyond.',
-   note='Trusted: TLC, the driver projection (registers read with SCPI_RegGet-equivalent fields, queue content). Representative bits per register instead of all 16; direct STB writes excluded; SRE bit 6 ignored.'),
- 'C12': dict(engine='explore+tlc-trace', ref='DESIGN.md 6 C12',
-   technique='TLC model checking of ScpiStatus.tla + TLC validation of implementation transitions, all 65536 codes',
-   text='As C11, with the class-bit map checked for all 65536 codes on the real library, latching/stickiness of event bits and the service request (rising edge, never with MSS clear) compared on every explored transition.',
-   note='Trusted: TLC, driver projection and callback capture. Extra service requests while MSS is already 1 are accepted; on overflow the class bit of the dropped error is optional, the DER bit of -350 mandatory.'),
-}
+import sys, glob
+sys.path.insert(0, os.path.join(ROOT, 'run'))
+CHECKS = {}
+for f in sorted(glob.glob(os.path.join(ROOT, 'run', 'p_C[0-9][0-9].py'))):
+    pid = os.path.basename(f)[2:5]
+    CHECKS[pid] = __import__('p_' + pid).MANIFEST
+NA = {}
+if os.path.exists(os.path.join(ROOT, 'run', 'not_applicable.json')):
+    NA = json.load(open(os.path.join(ROOT, 'run', 'not_applicable.json')))
 NA_REASON = 'check not built yet in this session (planned: see DESIGN.md section 6)'
 
 def main():
@@ -38,7 +37,7 @@ def main():
                                     engine=c['engine'], level_claimed=dict(category='model_checking', text=c['text'], design_ref=c['ref']),
                                     level_note=c['note'], technique=c['technique']))
         else:
-            m['not_applicable'].append(dict(property_id=pid, reason=NA_REASON))
+            m['not_applicable'].append(dict(property_id=pid, reason=NA.get(pid, NA_REASON)))
     with open(os.path.join(ROOT, 'MANIFEST.json'), 'w') as f:
         json.dump(m, f, indent=1)
     print('MANIFEST.json written:', len(m['checks']), 'checks,', len(m['not_applicable']), 'not applicable')
